@@ -111,6 +111,15 @@ CHECKS = {
         'note': TB + 'The definite answers additionally rest on C11-D1 (is_identity) and C01 (simplifier soundness), reported under their own ids. Not decided: agreement with ground truth.',
         'technique': 'return-path condition analysis (decision table) and data-flow rule',
     },
+    'C13': {
+        'text': 'Static: writer and reader of the qgraph format agree on field provenance (type, phase, coordinates through Coord::new/coord()/qubit()/row() '
+                'component tables, input/output order through an ordered map), on the Hadamard-edge marker (typ = H and is_edge, re-fused with a smart H edge, '
+                'validated to two neighbours, no raw edge insertion in the reader), on serde attribute pairing (parsed from json.rs), on the neutral markers '
+                '(vertex phase elided per type vs assumed when missing; the float factor written by the exact scalar branch is evaluated against the decoder\'s '
+                'multiply-guard), the hash back end delegates to the same conversion, and a phase at the denominator bound is encoded unchanged.',
+        'note': TB + 'Not decided: phase/scalar string and float encodings as values, isomorphism, tensor equality.',
+        'technique': 'writer/reader table agreement through struct-literal provenance, marker agreement by evaluating the reader guard on the writer constant, attribute pairing on source text, two-site disjunctive rule',
+    },
     'C14': {
         'text': 'Static: the two QASM name tables are mutually inverse for every kind but UnknownGate and use the standard names; the arity table equals '
                 'the reference; the opaque prelude declares every gate name of the property with the arity of num_qubits() and a parameter exactly when '
